@@ -87,6 +87,21 @@ bool DyndepLoader::LoadDyndeps(Node* node, DyndepFile* ddf,
 
 bool DyndepLoader::UpdateEdge(Edge* edge, Dyndeps const* dyndeps,
                               std::string* err) const {
+  // Refuse the information before applying any of it: callers that go on
+  // after an error (the clean tools) must not see an edge that claims an
+  // output of another statement.
+  for (std::vector<Node*>::const_iterator i =
+           dyndeps->implicit_outputs_.begin();
+       i != dyndeps->implicit_outputs_.end(); ++i) {
+    // Either another edge already produces this node, or the dyndep file
+    // names it twice.
+    if ((*i)->in_edge() ||
+        std::find(dyndeps->implicit_outputs_.begin(), i, *i) != i) {
+      *err = "multiple rules generate " + (*i)->path();
+      return false;
+    }
+  }
+
   // Add dyndep-discovered bindings to the edge.
   // We know the edge already has its own binding
   // scope because it has a "dyndep" binding.
@@ -100,14 +115,8 @@ bool DyndepLoader::UpdateEdge(Edge* edge, Dyndeps const* dyndeps,
   edge->implicit_outs_ += dyndeps->implicit_outputs_.size();
 
   // Add this edge as incoming to each new output.
-  for (Node* node : dyndeps->implicit_outputs_) {
-    if (node->in_edge()) {
-      // This node already has an edge producing it.
-      *err = "multiple rules generate " + node->path();
-      return false;
-    }
+  for (Node* node : dyndeps->implicit_outputs_)
     node->set_in_edge(edge);
-  }
 
   // Add the dyndep-discovered inputs to the edge.
   edge->inputs_.insert(edge->inputs_.end() - edge->order_only_deps_,
